@@ -273,6 +273,7 @@ package secec
 //@ func BuildASN1Signature
 //@   props C08 C12
 //@   trusted math/big and the cryptobyte.Builder continuation API are outside the engine's subset; the contract is SEC 1 C.8 / X.690 DER: SEQUENCE of the two INTEGERs (minimal two's-complement magnitude)
+//@   boundedcheck der_sig_build
 //@   ensures dersig(result) && dersig_r(result) == lift(val(r)) && dersig_s(result) == lift(val(s))
 //@   fresh result
 //@
